@@ -196,7 +196,11 @@ class C15(Prop):
             return {'op': 'rename', 'old': old, 'new': new}
         if kind in ('join', 'crossJoin', 'union'):
             if kind == 'union':
-                other = {'names': [rng.choice(['a', 'b', n]) for n in names] if rng.random() < .3 else list(names), 'types': list(types),
+                r_ = rng.random()
+                onames = [rng.choice(['a', 'b', n]) for n in names] if r_ < .25 else list(names)
+                if .25 <= r_ < .55:
+                    rng.shuffle(onames)      # same names in another order: union is positional
+                other = {'names': onames, 'types': list(types),
                          'rows': [[G.sv(G.gen_val(rng, t)) for t in types] for _ in range(rng.randint(0, 3))], 'parts': rng.randint(1, 2)}
                 if rng.random() < .07:
                     other['names'], other['types'] = other['names'] + ['x'], other['types'] + ['int']
@@ -270,7 +274,7 @@ class C15(Prop):
         if kind == 'distinct':
             return {'op': 'distinct'}
         if kind == 'sample':
-            return {'op': 'sample', 'fraction': rng.choice([0.0, 0.3, 0.5, 0.8, 1.0]), 'seed': rng.randint(0, 50)}
+            return {'op': 'sample', 'fraction': rng.choice([0.0, 0.3, 0.5, 0.8, 1.0]), 'seed': rng.choice([None, rng.randint(0, 50)])}
         return {'op': 'repartition', 'n': rng.randint(1, 3)}
 
     def gen(self, rng, tier):
@@ -321,6 +325,8 @@ class C15(Prop):
                                  'aggs': [{'fn': 'sum', 'col': 'v', 'alias': 't'}, {'fn': 'count', 'col': 'v', 'alias': None}]}]},
             {'src': t3, 'ops': [{'op': 'union', 'other': dict(t3, names=['a', 'b', 'c'])}, {'op': 'sort', 'keys': [{'c': 'v', 'asc': False}]},
                                 {'op': 'limit', 'n': 4}]},
+            {'src': t3, 'ops': [{'op': 'union', 'other': dict(t3, names=['v', 's', 'k'])}, {'op': 'distinct'}]},
+            {'src': dict(t3, rows=t3['rows'] * 6), 'ops': [{'op': 'sample', 'fraction': .5, 'seed': None}, {'op': 'limit', 'n': 30}]},
             {'src': {'range': [1, 7, 2], 'parts': 3}, 'ops': [{'op': 'withColumn', 'name': 'id', 'e': {'op': 'mul', 'a': col(0), 'b': col(0)}}]},
         ]
         for how in HOWS:
@@ -422,6 +428,8 @@ class C15(Prop):
         if k == 'distinct':
             return df.distinct()
         if k == 'sample':
+            if op.get('seed') is None:
+                return df.sample(False, float(op['fraction']))       # unseeded: the frame must still be ONE sample
             return df.sample(False, float(op['fraction']), op['seed'])
         if k == 'repartition':
             return df.repartition(op['n'])
